@@ -202,7 +202,10 @@ def transform_expression(
     :param symbols_to_use: an optional list of symbols to use so that already defined symbols will be reused.
     :return: the transformed expression and the symbols to use.
     """
-    pddl_variables = set(re.findall(r"(\([\w-]+\s[?\w\-\s]*\))", expression))
+    # a fluent's name starts with a letter: "(-1 - 1)" is arithmetic on constants, not a fluent.
+    pddl_variables = set(
+        re.findall(r"(\([a-zA-Z][\w-]*\s[?\w\-\s]*\))", expression)
+    )
     if len(pddl_variables) == 0:
         return expression, symbols_to_use
 
